@@ -20,28 +20,66 @@ type hcall struct {
 	kind string
 }
 
-// deepCopy of the kinds of inputs this driver passes (pointer to synthesised struct, scalars, maps, strings)
+// deepCopy: a copy that shares no memory with the original (pointers, slices, arrays, maps, structs with exported
+// fields), so that a callee that reorders or overwrites the caller's backing array is seen
 func deepCopy(v interface{}) interface{} {
 	if v == nil {
 		return nil
 	}
-	rv := reflect.ValueOf(v)
+	return deepCopyValue(reflect.ValueOf(v)).Interface()
+}
+
+func deepCopyValue(rv reflect.Value) reflect.Value {
 	switch rv.Kind() {
 	case reflect.Ptr:
 		if rv.IsNil() {
-			return v
+			return rv
 		}
 		n := reflect.New(rv.Elem().Type())
-		n.Elem().Set(rv.Elem())
-		return n.Interface()
+		n.Elem().Set(deepCopyValue(rv.Elem()))
+		return n
+	case reflect.Slice:
+		if rv.IsNil() {
+			return rv
+		}
+		n := reflect.MakeSlice(rv.Type(), rv.Len(), rv.Len())
+		for i := 0; i < rv.Len(); i++ {
+			n.Index(i).Set(deepCopyValue(rv.Index(i)))
+		}
+		return n
+	case reflect.Array:
+		n := reflect.New(rv.Type()).Elem()
+		for i := 0; i < rv.Len(); i++ {
+			n.Index(i).Set(deepCopyValue(rv.Index(i)))
+		}
+		return n
 	case reflect.Map:
+		if rv.IsNil() {
+			return rv
+		}
 		n := reflect.MakeMap(rv.Type())
 		for _, k := range rv.MapKeys() {
-			n.SetMapIndex(k, rv.MapIndex(k))
+			n.SetMapIndex(k, deepCopyValue(rv.MapIndex(k)))
 		}
-		return n.Interface()
+		return n
+	case reflect.Struct:
+		n := reflect.New(rv.Type()).Elem()
+		n.Set(rv) // unexported fields are copied by value
+		for i := 0; i < rv.NumField(); i++ {
+			if n.Field(i).CanSet() {
+				n.Field(i).Set(deepCopyValue(rv.Field(i)))
+			}
+		}
+		return n
+	case reflect.Interface:
+		if rv.IsNil() {
+			return rv
+		}
+		n := reflect.New(rv.Type()).Elem()
+		n.Set(deepCopyValue(rv.Elem()))
+		return n
 	}
-	return v
+	return rv
 }
 
 func mkCalls(r *gal.Rng, types []twoTag, n int) []hcall {
@@ -98,6 +136,29 @@ func mkCalls(r *gal.Rng, types []twoTag, n int) []hcall {
 				h.exps = []expE{{"C", "", m}}
 			}
 			h.kind = "var-re"
+		case x < 7 && r.Chance(30): // slices out of order under the rules that read every element
+			m := fmt.Sprintf("M%ds", i)
+			type sl struct {
+				v    interface{}
+				dupe bool
+			}
+			pick := []sl{{[]string{"b", "a", "b"}, true}, {[]string{"c", "b", "a"}, false}, {[]int{3, 1, 2}, false}, {[]int{2, 1, 2}, true},
+				{[]float64{2.5, 1.5}, false}, {[]string{"zz", "y", "zz", "x"}, true}}[r.Intn(6)]
+			if r.Bool() {
+				h.call = &walkCall{Entry: "var", VarRules: []string{"unique|" + m}, Src: pick.v}
+				if pick.dupe {
+					h.exps = []expE{{"C", "", m}}
+				}
+			} else {
+				st := reflect.StructOf([]reflect.StructField{{Name: "F", Type: reflect.TypeOf(pick.v), Tag: reflect.StructTag(`valid:"unique|` + m + `"`)}})
+				sv := reflect.New(st).Elem()
+				sv.Field(0).Set(reflect.ValueOf(pick.v))
+				h.call = &walkCall{Entry: "struct", Src: sv.Addr().Interface()}
+				if pick.dupe {
+					h.exps = []expE{{"C", "F", m}}
+				}
+			}
+			h.kind = "slice-out-of-order"
 		case x < 7:
 			sp := specimens[r.Intn(len(specimens))]
 			rv := sp.rules[r.Intn(len(sp.rules))]
